@@ -2,6 +2,6 @@
 # tools/run_all.sh [quick|thorough] [seed]  — run every registered check, 6 at a time; print one summary line each
 cd "$(dirname "$0")/.." || exit 2
 TIER=${1:-quick}; SEED=${2:-0}
-mkdir -p /tmp/verif-runall
+mkdir -p ${RUNALL_DIR:=/tmp/verif-runall}
 /venv/bin/python -c "import json; print('\n'.join(c['property_id'] for c in json.load(open('MANIFEST.json'))['checks']))" |
-  xargs -P 6 -I{} sh -c "VERIF_SEED=$SEED ./check {} --tier $TIER > /tmp/verif-runall/{}.out 2>&1; echo \"{} exit=\$? \$(grep -c '^VIOLATION' /tmp/verif-runall/{}.out) violations, \$(grep -c '^KNOWN-FINDING' /tmp/verif-runall/{}.out) known :: \$(tail -1 /tmp/verif-runall/{}.out)\""
+  xargs -P 6 -I{} sh -c "VERIF_SEED=$SEED ./check {} --tier $TIER > $RUNALL_DIR/{}.out 2>&1; echo \"{} exit=\$? \$(grep -c '^VIOLATION' $RUNALL_DIR/{}.out) violations, \$(grep -c '^KNOWN-FINDING' $RUNALL_DIR/{}.out) known :: \$(tail -1 $RUNALL_DIR/{}.out)\""
